@@ -9,10 +9,10 @@ import (
 )
 
 func init() {
-	register(&Rule{ID: "C01.R6", Min: 4,
+	register(&Rule{ID: "C01.R6", Min: 7,
 		Text: "the sign the rounding sees is the result's sign: after a call reaching Rounder.Round on the destination, d.Negative is only ever re-stored with the Negative field of the very operand that was rounded (directed modes decide by that sign)",
 		Run:  ruleSignAfterRounding})
-	register(&Rule{ID: "C04.R6", Min: 6,
+	register(&Rule{ID: "C04.R6", Min: 4,
 		Text: "system-limit flags are guarded by the package limits: every return of a SystemOverflow/SystemUnderflow constant is under a comparison with the package constants ±MaxExponent, never with a context field",
 		Run:  ruleSystemLimitGuards})
 	register(&Rule{ID: "C09.R5", Min: 1,
